@@ -57,7 +57,7 @@ def build_harness():
 _TLC_STATS = re.compile(r"(\d+) states generated, (\d+) distinct states found")
 
 
-def run_tlc(module, cfg, wd, env=None, workers=8, timeout=1200, heap="6g", consts=None, dfs=False, coverage=False):
+def run_tlc(module, cfg, wd, env=None, workers=8, timeout=1200, heap="6g", consts=None, dfs=False, coverage=False, simulate=None):
     """runs TLC on spec/<module>.tla with spec/<cfg> inside work dir wd; returns dict(out=path, states, distinct,
     lines=[...PrintT tuples as strings])"""
     for f in os.listdir(SPEC):
@@ -80,6 +80,10 @@ def run_tlc(module, cfg, wd, env=None, workers=8, timeout=1200, heap="6g", const
            "-cleanup", "-noGenerateSpecTE", "-config", cfgname]
     if coverage:
         cmd += ["-coverage", "1"]
+    if simulate:
+        cmd += ["-simulate", "num=%d" % simulate[0], "-depth", str(simulate[1])]
+        if len(simulate) > 2:
+            cmd += ["-seed", str(simulate[2])]
     cmd.append(module + ".tla")
     t0 = time.time()
     with open(out, "w") as fo:
@@ -93,7 +97,11 @@ def run_tlc(module, cfg, wd, env=None, workers=8, timeout=1200, heap="6g", const
            "distinct": int(m.group(2)) if m else 0, "text": text}
     if p.returncode == 124:
         raise ToolError("TLC timed out on %s after %ds" % (module, timeout))
-    if "Model checking completed. No error has been found." not in text:
+    if simulate:
+        if p.returncode != 0 or "Error:" in text:
+            tail = "\n".join(l for l in text.splitlines() if not l.startswith("<<"))[-3000:]
+            raise ToolError("TLC simulation failed on %s (rc=%d):\n%s" % (module, p.returncode, tail))
+    elif "Model checking completed. No error has been found." not in text:
         tail = "\n".join(l for l in text.splitlines() if not l.startswith("<<"))[-3000:]
         raise ToolError("TLC did not complete cleanly on %s (rc=%d):\n%s" % (module, p.returncode, tail))
     shutil.rmtree(os.path.join(wd, "states-" + module), ignore_errors=True)
